@@ -593,10 +593,12 @@ func (cl *Client) WritePacket(pk packets.Packet) error {
 		err = fmt.Errorf("%w: %v", packets.ErrNoValidPacketAvailable, pk.FixedHeader.Type)
 	}
 	if err != nil {
+		cl.flushIfIdle()
 		return err
 	}
 
 	if pk.Mods.MaxSize > 0 && uint32(buf.Len()) > pk.Mods.MaxSize {
+		cl.flushIfIdle()
 		return packets.ErrPacketTooLarge // [MQTT-3.1.2-24] [MQTT-3.1.2-25]
 	}
 
@@ -643,6 +645,16 @@ func (cl *Client) WritePacket(pk packets.Packet) error {
 	cl.ops.hooks.OnPacketSent(cl, pk, buf.Bytes())
 
 	return err
+}
+
+// flushIfIdle flushes packets buffered by earlier writes when the packet which
+// would have flushed them is refused and no further writes are queued.
+func (cl *Client) flushIfIdle() {
+	cl.Lock()
+	defer cl.Unlock()
+	if len(cl.State.outbound) == 0 {
+		_ = cl.flushOutbuf()
+	}
 }
 
 func (cl *Client) flushOutbuf() (err error) {
